@@ -21,7 +21,7 @@ func ghostHeapSort(name string) Sort {
 		return ArrOf(SInt, SBool)
 	case "G:jePre", "G:jeInd":
 		return ArrOf(SInt, SString)
-	case "G:jeW", "G:jdSrc":
+	case "G:jeW", "G:jdSrc", "G:geW", "G:gdSrc":
 		return ArrOf(SInt, SVal)
 	case "G:rdeof":
 		return ArrOf(SInt, SBool)
@@ -71,7 +71,7 @@ func ghostIntrinsicHeaps(fn *ssa.Function) []string {
 		return []string{"G:xddepth"}
 	case "verifHeight":
 		return []string{"Mdom:map[string]interface{}", "Msel:map[string]interface{}"}
-	case "verifJsonText", "verifJsonErr", "verifJsonDecodedAs":
+	case "verifJsonText", "verifJsonErr", "verifJsonDecodedAs", "verifGobBytes", "verifGobErr", "verifGobDecodedAs":
 		return []string{"Mdom:map[string]interface{}", "Msel:map[string]interface{}", "Mlen:map[string]interface{}"}
 	}
 	return nil
@@ -136,6 +136,23 @@ func (c *FnCtx) ghostIntrinsic(fr *Frame, st *State, fn *ssa.Function, args []*T
 		mt := types.NewMap(types.Typ[types.String], types.NewInterfaceType(nil, nil))
 		mh := c.mapHeaps(st, mt)
 		return []*Term{ts.UF("jsonDecodedAs", SBool, c.heap(st, mh.dom, mh.sdom), c.heap(st, mh.sel, mh.ssel), c.heap(st, mh.ln, mh.sln), args[0], args[1], args[2])}, true
+	case "verifGobBytes", "verifGobErr":
+		c.eng.registerMapHeaps(types.NewMap(types.Typ[types.String], types.NewInterfaceType(nil, nil)))
+		var hs []*Term
+		for _, h := range []string{"Mdom:map[string]interface{}", "Msel:map[string]interface{}", "Mlen:map[string]interface{}"} {
+			hs = append(hs, c.heap(st, h, c.eng.heapSorts[h]))
+		}
+		v := c.normJsonVal(args[0])
+		if fn.Name() == "verifGobBytes" {
+			return []*Term{ts.UF("gobBytes", SString, append(hs, v)...)}, true
+		}
+		return []*Term{ts.UF("gobErr", SVal, append(hs, v)...)}, true
+	case "verifGobDecErr":
+		return []*Term{ts.UF("gobDecErr", SVal, args[0])}, true
+	case "verifGobDecodedAs":
+		mt := types.NewMap(types.Typ[types.String], types.NewInterfaceType(nil, nil))
+		mh := c.mapHeaps(st, mt)
+		return []*Term{ts.UF("gobDecodedAs", SBool, c.heap(st, mh.dom, mh.sdom), c.heap(st, mh.sel, mh.ssel), c.heap(st, mh.ln, mh.sln), args[0], args[1])}, true
 	case "verifSameMap": // identity of two maps
 		return []*Term{ts.Eq(args[0], args[1])}, true
 	case "verifSameVal": // equality of two values (maps by identity)
@@ -532,6 +549,39 @@ func (c *FnCtx) model(fr *Frame, st *State, x *ssa.Call, name string, args []*Te
 		werr := c.maybeErr(st, "encwrite")
 		c.addFact(st, ts.Implies(isBuf, tc.IsNilVal(werr)))
 		return []*Term{ts.Ite(tc.IsNilVal(e), werr, e)}
+	case "encoding/gob.NewEncoder":
+		use("encoding/gob: Encoder.Encode writes gobBytes(value) - an uninterpreted function of the value's content - or fails with gobErr(value); Decoder.Decode yields a fresh map related to the bytes by gobDecodedAs")
+		o := c.allocObj(st, "gobenc")
+		c.gset(st, "G:geW", o, args[0])
+		return []*Term{o}
+	case "(*encoding/gob.Encoder).Encode":
+		use("encoding/gob: Encoder.Encode writes gobBytes(value) - an uninterpreted function of the value's content - or fails with gobErr(value); Decoder.Decode yields a fresh map related to the bytes by gobDecodedAs")
+		c.eng.registerMapHeaps(types.NewMap(types.Typ[types.String], types.NewInterfaceType(nil, nil)))
+		var hs []*Term
+		for _, h := range []string{"Mdom:map[string]interface{}", "Msel:map[string]interface{}", "Mlen:map[string]interface{}"} {
+			hs = append(hs, c.heap(st, h, c.eng.heapSorts[h]))
+		}
+		v := c.normJsonVal(args[1])
+		txt := ts.UF("gobBytes", SString, append(append([]*Term{}, hs...), v)...)
+		e := ts.UF("gobErr", SVal, append(append([]*Term{}, hs...), v)...)
+		c.addFact(st, ts.Or(tc.IsNilVal(e), ts.App("(_ is VBox)", SBool, e)))
+		w := c.gget(st, "G:geW", args[0])
+		bufT := types.NewPointer(c.namedType("bytes", "Buffer"))
+		isBuf := tc.IsType(bufT, w)
+		bobj := tc.Unbox(bufT, w)
+		oldb := c.gget(st, "G:buf", bobj)
+		c.gset(st, "G:buf", bobj, ts.Ite(ts.And(isBuf, tc.IsNilVal(e)), ts.Concat(oldb, txt), oldb))
+		if !isBuf.IsTrue() {
+			c.trusted["gob.Encoder on a writer that is not a *bytes.Buffer: output not tracked"] = true
+		}
+		return []*Term{e}
+	case "encoding/gob.NewDecoder":
+		o := c.allocObj(st, "gobdec")
+		c.gset(st, "G:gdSrc", o, args[0])
+		return []*Term{o}
+	case "(*encoding/gob.Decoder).Decode":
+		use("encoding/gob: Encoder.Encode writes gobBytes(value) - an uninterpreted function of the value's content - or fails with gobErr(value); Decoder.Decode yields a fresh map related to the bytes by gobDecodedAs")
+		return c.gobDecode(fr, st, x, args, cc)
 	case "encoding/json.NewDecoder":
 		use("encoding/json.NewDecoder(r) / Decoder.Decode(&m): decodes the next value of r's remaining bytes; value, error and end position are uninterpreted functions of those bytes and the UseNumber flag")
 		o := c.allocObj(st, "jsondec")
@@ -938,4 +988,33 @@ func (c *FnCtx) jsonDecode(fr *Frame, st *State, x *ssa.Call, args []*Term, cc *
 
 func e0(ts *TermStore, hs []*Term, v *Term) *Term {
 	return ts.UF("jsonErr", SVal, append(append([]*Term{}, hs...), v)...)
+}
+
+func (c *FnCtx) gobDecode(fr *Frame, st *State, x *ssa.Call, args []*Term, cc *ssa.CallCommon) []*Term {
+	ts := c.eng.ts
+	tc := c.eng.tc
+	src := c.gget(st, "G:gdSrc", args[0])
+	id := c.ioID(src)
+	data := ts.UF("rddata", SString, id)
+	pos := c.gget(st, "G:rdpos", id)
+	rest := ts.Extract(data, pos, ts.Sub(ts.Len(data), pos))
+	e := ts.UF("gobDecErr", SVal, rest)
+	c.addFact(st, ts.Or(tc.IsNilVal(e), ts.App("(_ is VBox)", SBool, e)))
+	mt := types.NewMap(types.Typ[types.String], types.NewInterfaceType(nil, nil))
+	ptrT := types.NewPointer(mt)
+	obj := tc.Unbox(ptrT, args[1])
+	hn, hs := c.ptrHeapName(mt)
+	nm := c.allocObj(st, "gobdecoded")
+	old := c.hget(st, hn, hs, obj)
+	// on success the variable holds a map with the decoded content (gob reuses a non-nil map: entries are added; mxj always passes an empty one)
+	c.setHeapAt(st, hn, hs, obj, ts.Ite(tc.IsNilVal(e), nm, old))
+	mh := c.mapHeaps(st, mt)
+	c.setHeapAt(st, mh.dom, mh.sdom, nm, ts.Fresh("gobdecoded!dom", ArrOf(SString, SBool)))
+	c.setHeapAt(st, mh.sel, mh.ssel, nm, ts.Fresh("gobdecoded!sel", ArrOf(SString, SVal)))
+	c.setHeapAt(st, mh.ln, mh.sln, nm, ts.Fresh("gobdecoded!len", SInt))
+	rel := ts.UF("gobDecodedAs", SBool, c.heap(st, mh.dom, mh.sdom), c.heap(st, mh.sel, mh.ssel), c.heap(st, mh.ln, mh.sln), nm, rest)
+	c.addFact(st, ts.Implies(tc.IsNilVal(e), rel))
+	c.addFact(st, ts.Ge(c.hget(st, mh.ln, mh.sln, nm), ts.Int(0)))
+	c.trusted["gob.Decoder.Decode into a non-empty map is modelled as replacing it (mxj always passes a freshly made empty map)"] = true
+	return []*Term{e}
 }
